@@ -106,33 +106,28 @@ impl<'a> IntersectionParams<'a> {
         // prevent overflows.
         let denominator = i64::from(denominator);
 
-        // The denominator/2 is to get rounding instead of truncating.
-        let offset = denominator.abs() / 2;
-
         let origin_distance1 = i64::from(line1.origin_distance);
         let origin_distance2 = i64::from(line2.origin_distance);
 
-        let numerator = origin_distance1 * i64::from(line2.normal_vector.y)
+        let x_numerator = origin_distance1 * i64::from(line2.normal_vector.y)
             - origin_distance2 * i64::from(line1.normal_vector.y);
-        let x_numerator = if numerator < 0 {
-            numerator - offset
-        } else {
-            numerator + offset
-        };
 
-        let numerator = i64::from(line1.normal_vector.x) * origin_distance2
+        let y_numerator = i64::from(line1.normal_vector.x) * origin_distance2
             - i64::from(line2.normal_vector.x) * origin_distance1;
-        let y_numerator = if numerator < 0 {
-            numerator - offset
-        } else {
-            numerator + offset
+
+        // The quotients are rounded to the nearest integer. Ties are always rounded up, instead of
+        // away from zero, to make the result independent of the sign of the coordinates. Otherwise
+        // the shape of a joint would change if the lines are translated across an axis.
+        let sign = denominator.signum();
+        let denominator = denominator.abs();
+        let round_div = |numerator: i64| -> i32 {
+            (2 * numerator * sign + denominator)
+                .div_euclid(2 * denominator)
+                .saturating_as()
         };
 
         Intersection::Point {
-            point: Point::new(
-                (x_numerator / denominator).saturating_as(),
-                (y_numerator / denominator).saturating_as(),
-            ),
+            point: Point::new(round_div(x_numerator), round_div(y_numerator)),
             outer_side,
         }
     }
